@@ -5,6 +5,9 @@ from collections import defaultdict
 
 from . import facts as factsmod
 from . import inline as inlinemod
+from . import expand as expandmod
+
+EXPAND = os.environ.get("VERIF_NO_EXPAND") is None
 
 
 class AnchorMissing(Exception):
@@ -525,6 +528,7 @@ class Program:
         self.impls = []
         self.unsafe = []
         self.counts = defaultdict(int)
+        self.expanded = {}       # fn key -> [(combinator, line)]: iterator pipelines / Option-Result combinators rewritten as loops / matches
         self.inlined = {}        # caller key -> [(helper key, line)]: new helpers expanded at their call sites
         known = inlinemod.load_known()
         for t in factsmod.EXPECTED_TARGETS:
@@ -536,9 +540,15 @@ class Program:
             if d.get("schema") != factsmod.SCHEMA:
                 raise AnchorMissing("fact schema mismatch in %s" % t)
             self.targets[t] = d
-            rep = inlinemod.inline_all(d["fns"], known)
-            for k, v in rep.items():
-                self.inlined.setdefault(k, []).extend(v)
+            for _round in range(3):
+                erep = expandmod.expand_all(d["fns"]) if EXPAND else {}
+                for k, v in erep.items():
+                    self.expanded.setdefault(k, []).extend(v)
+                rep = inlinemod.inline_all(d["fns"], known)
+                for k, v in rep.items():
+                    self.inlined.setdefault(k, []).extend(v)
+                if not erep and not rep:
+                    break
             for k, v in d["counts"].items():
                 self.counts[k] += v
             for k, rec in d["fns"].items():
@@ -581,7 +591,13 @@ class Program:
 
     def family(self, root_key):
         """root fn + all closures / coroutines nested in it."""
-        return [self.fn(root_key)] + sorted(self._children.get(root_key, []), key=lambda f: f.key)
+        root = self.fn(root_key)
+        kids = sorted(self._children.get(root_key, []), key=lambda f: f.key)
+        # a closure whose body was spliced into its parent (normalised combinator) is analysed there, with its context
+        spliced = set(root.rec.get("spliced") or [])
+        for k in kids:
+            spliced |= set(k.rec.get("spliced") or [])
+        return [root] + [k for k in kids if k.key not in spliced]
 
     def body_of(self, root_key):
         """The function holding the user-written body: for `async fn` / #[async_recursion] that is
